@@ -1356,6 +1356,11 @@ func genC15(r *Rand, p *Plan, tier string) {
 			c := &d.Users[ui].Commands[ci]
 			c.Name = " " + c.Name
 			for mi := range c.Match {
+				if r.Chance(50) {
+					// an expression no earlier run of this worker process has seen: whatever the
+					// authorizer keeps per expression is built anew, by whoever comes first
+					c.Match[mi] = c.Match[mi] + "|zq" + r.Alnum(8)
+				}
 				c.Match[mi] = c.Match[mi] + " "
 			}
 		}
